@@ -13,7 +13,9 @@ THEOREMS = ["handler_total", "bug_table", "grammar_alternation_partial", "gramma
             "no_failure_while_open_partial", "closed_on_disconnect", "notif_only_while_open",
             "no_bug_reachable_partial", "no_bug_next_partial", "no_bug_reachable_witness",
             "open_answered_once_partial", "open_after_late_failure", "open_answered_once_witness",
-            "inbound_after_accept_partial", "inbound_after_accept_witness"]
+            "inbound_after_accept_partial", "inbound_after_accept_witness",
+            "batch_open_answers_each", "batch_open_answered_once", "batch_results",
+            "handshake_bounded", "handshake_exact", "handshake_poll_order", "handshake_stale_result_witness"]
 MANIFEST = {
     "text": "Lean 4 theorems about an executable model of the notification per-peer state machine (all states, every "
             "handler in the code's order of checks, debug_assert branches as explicit bug outputs) composed with its "
@@ -526,6 +528,8 @@ def oracle(case, out):
                                 # its NotificationStreamClosed is late (finding late-closed-report)
     burst = False               # the protocol loop has just worked through a backlog (`phold … prelease`): meanwhile no
                                 # connection task was polled, i.e. every task was held back for the length of the burst
+    held_touch = set()          # peers for which a negotiation may have been started while the protocol loop was held
+    held_reqs = []              # peers of the open requests the handle has sent while the adapter holds the commands back
     cmd_held = proto_held = False   # the adapter keeps user commands from the protocol / does not poll the protocol loop
     maxsz = 64
     sinks = {}                  # sink number -> (peer, number of closed(peer) events the user had seen when it was taken)
@@ -592,11 +596,24 @@ def oracle(case, out):
             cmd_held = True
         if t[0] == "cmdrelease":
             cmd_held = False
+            # the open requests sent meanwhile reach the protocol now
+            for rp in held_reqs:
+                open_ok_steps.setdefault(rp, []).append(i)
+                subin_since_events.add(rp)
+                last_terminal[rp] = False
+                quiet[rp] = False
+            held_reqs = []
         if t[0] == "phold":
             proto_held = True
         if t[0] == "prelease":
             burst = burst or proto_held
             proto_held = False
+            # what was fed to the protocol meanwhile is handled now (an `events` in between saw nothing of it)
+            for hp in held_touch:
+                subin_since_events.add(hp)
+                last_terminal[hp] = False
+                quiet[hp] = False
+            held_touch = set()
         if t[0] == "shutdown":
             if not o.startswith("exited"):
                 v("protocol-did-not-exit", f"the user dropped the handle but NotificationProtocol::run() did not return: {o}", i)
@@ -648,6 +665,8 @@ def oracle(case, out):
             # ops that can start a negotiation round; an event drained later may predate them
             subin_since_events.add(peer)
             last_terminal[peer] = False
+            if proto_held:
+                held_touch.add(peer)
         for m in STALLED.finditer(o):
             # a `Substream::close()` of a connection task of that peer is suspended (explicitly stalled close)
             taint.add(int(m.group(1)))
@@ -693,6 +712,10 @@ def oracle(case, out):
         if t[0] == "subout":
             pending_req_kind.pop(peer, None)
         for rp in ([peer] if t[0] == "open" and o.split()[0] == "ok" else batch_peers):
+            if cmd_held:
+                held_reqs.append(rp)
+                quiet[rp] = False
+                continue
             open_ok_steps.setdefault(rp, []).append(i)
             if (rp in connected and quiet.get(rp) and not view_open.get(rp) and rp not in qualifying
                     and rp not in pending_req_kind and not cmd_held and not proto_held):
